@@ -419,6 +419,7 @@ func (t *T0x0200ExtensionSBBase) parse(data []byte) {
 }
 
 func (vs *T0x0200ExtensionTable18) parse(value uint16) {
+	*vs = T0x0200ExtensionTable18{} // 复用对象时清空上一次解析的标志
 	vs.OriginalValue = value
 	data := fmt.Sprintf("%.16b", vs.OriginalValue)
 	if data[15] == '1' {
